@@ -4,6 +4,7 @@
 package pd
 
 import (
+	"bytes"
 	"encoding/binary"
 	"encoding/hex"
 	"encoding/json"
@@ -82,14 +83,17 @@ type Sys struct {
 	rich   bool
 }
 
-// duidOf: the client identifiers are chosen adversarially: B's DUID is A's plus one byte (A is
-// a strict prefix of B, same DUID type), C is of another DUID kind.
+// duidOf: the client identifiers are chosen adversarially. A is a DUID-EN with a 200-octet
+// identifier (longer than the 130 octets RFC 8415 allows, which the codec accepts), B is A
+// plus one more octet: A is a strict prefix of B and both agree in their first 206 octets.
+// C is a short DUID-LL.
 func duidOf(client string) []byte {
+	long := append([]byte{0, 2, 0, 0, 0x9, 0xbf}, bytes.Repeat([]byte{0x5a}, 199)...)
 	switch client {
+	case "A":
+		return append(long, 'A')
 	case "B":
-		return []byte{0, 3, 0, 1, 2, 0, 0, 0, 0, 'A', 0}
-	case "C":
-		return []byte{0, 2, 0, 0, 0x9, 0xbf, 'C'}
+		return append(append(long, 'A'), 'B')
 	}
 	return []byte{0, 3, 0, 1, 2, 0, 0, 0, 0, client[0]}
 }
